@@ -110,7 +110,7 @@ RestoreStableService(s) ==     \* remove the revision selector of the stable Ser
 \* provider.Finalise: delete the canary Ingress / restore the HTTPRoute; TRUE iff something was modified
 GatewayDirty(net) == (net.provIngress /\ net.ing) \/ (net.provGateway /\ net.route /\ (net.rtCanaryW >= 0 \/ net.rtGenRules > 0 \/ net.rtStableW # 1))
 GatewayClean(net) == [net EXCEPT !.ing = FALSE, !.ingWeight = -1, !.ingMatch = "", !.ingPaths = 0, !.ingBackendOk = TRUE,
-                                 !.rtCanaryW = -1, !.rtGenRules = 0,
+                                 !.rtCanaryW = -1, !.rtGenRules = 0, !.rtMatch = "",
                                  !.rtStableW = IF net.provGateway /\ net.route THEN 1 ELSE net.rtStableW,
                                  !.rtRules = IF net.provGateway /\ net.route THEN net.rtRules - net.rtGenRules ELSE net.rtRules]
 
@@ -152,7 +152,7 @@ EnsureGateway(net, st) ==
   IF ~net.provGateway THEN [net |-> net, ok |-> TRUE]
   ELSE LET desired ==
              IF st.match # ""
-             THEN [net EXCEPT !.rtGenRules = 1, !.rtRules = (net.rtRules - net.rtGenRules) + 1]
+             THEN [net EXCEPT !.rtGenRules = 1, !.rtRules = (net.rtRules - net.rtGenRules) + 1, !.rtMatch = st.match]
              \* without a generated canary Service the canary backendRef IS the stable one: it ends up with the canary weight
              ELSE IF net.noCanarySvc THEN [net EXCEPT !.rtStableW = st.traffic]
              ELSE [net EXCEPT !.rtStableW = 100 - st.traffic, !.rtCanaryW = st.traffic]
